@@ -158,6 +158,12 @@ def one_run_one_append_rule(ctx, rid):
                                       and any(isinstance(x_, ast.Call) and norm(x_.func) in ("self.reap_runner", "sampler.add_df", "self.farmer.add_df") for x_ in ast.walk(r.cls.methods[c_.func.attr].node)) for c_ in ast.walk(r.node)):
         raise AnalysisError("idiom changed: reap_samples reaps / appends through a helper method")
     else:
+        if not rp or not adds:
+            from ..util import callee_func as _cf15
+            for n_, c_, nm_ in all_calls(ctx, r, gr):
+                h_ = _cf15(ctx, r, c_)
+                if h_ is not None and hasattr(h_, "node") and h_ is not r and any(nm2 in (FARM + ".Sampler.add_df", "xyzpy.gen.cropping.Crop.reap_runner") for _, _, nm2 in all_calls(ctx, h_)):
+                    raise AnalysisError("idiom changed: reap_samples reaps / appends through `%s`" % h_.qualname)
         rr.bad(ctx.finding(rid, r, r.node, "reap_samples does not append exactly the reaped frame once", construct="reap-samples-once"), "reap once")
     return rr
 
